@@ -114,7 +114,14 @@ pub fn run(ctx: &Ctx) -> Report {
                     }
                     let mut ops: Vec<ROp> = vec![];
                     // reach the offset through different buffer states
-                    match ci % 3 {
+                    match ci % 4 {
+                        3 => {
+                            // an already used reader (its buffer holds other bits) repositioned by a seek
+                            ops.push(ROp::Read(1 + (ci % 61)));
+                            ops.push(ROp::Skip((ci * 7) % (2 * w + 3)));
+                            ops.push(ROp::Peek(kind.peek_limit()));
+                            ops.push(ROp::Seek(off as u64));
+                        }
                         0 => {
                             if off > 0 {
                                 ops.push(ROp::Skip(off));
